@@ -1,2 +1,5 @@
 #!/bin/sh
-exit 0
+# Run once after a fresh restore, offline: builds the instrumenter and warms the Go build
+# cache for the plain and the -race harness builds.
+cd "$(dirname "$0")" || exit 2
+exec ./check warm
